@@ -71,6 +71,7 @@ def dispatch (op : String) (args : List SExp) : Option OpResult :=
   | "dav.fail" => opDavFail args
   | "pf.prin" => opPfPrin args
   | "pf.discover" => opPfDiscover args
+  | "fs.obs" => opFsObs args
   | "pf.consist" => opPfConsist args
   | "obj.cals" => opObjCals args
   | "obj.books" => opObjBooks args
